@@ -348,3 +348,41 @@ def minimal_packets(rnd):
     out.append(('IPv6-UDP-CoAP', ipv6(rnd, udp(rnd, c_, csum=lambda x: udp_checksum_v6(s6, d6, x)), 17, s6, d6)))
     out.append(('IPv4-UDP-CoAP', ipv4(rnd, udp(rnd, c_, csum=lambda x: udp_checksum_v4(s4, d4, x)), 17, s4, d4)))
     return out
+
+
+def sctp_with_checksum(rnd, target):
+    """an SCTP packet (one DATA chunk of 8 user-data bytes) whose correct CRC-32c checksum field is exactly `target` (4 bytes as stored):
+    the last four user-data bytes are solved -- the CRC is affine in the message bits, 32 unknowns, Gaussian elimination over GF(2)"""
+    sport, dport, tag = rnd.randrange(65536), rnd.randrange(65536), rnd.randbytes(4)
+    body = rnd.randbytes(12)
+    head = struct.pack('!HH', sport, dport) + tag + b'\0\0\0\0' + struct.pack('!BBH', 0, 3, 16 + 8) + body + rnd.randbytes(4)
+    want = int.from_bytes(target, 'big')
+
+    def crc(free):
+        return int.from_bytes(sctp_checksum_field(head + free.to_bytes(4, 'big')), 'big')
+    c0 = crc(0)
+    cols = [crc(1 << i) ^ c0 for i in range(32)]
+    # solve sum_i x_i cols[i] = want ^ c0
+    rows = []            # (pivot bit, vector, combination)
+    rhs = want ^ c0
+    basis = []
+    for i, c in enumerate(cols):
+        comb = 1 << i
+        for pb, v, cm in basis:
+            if c >> pb & 1:
+                c ^= v
+                comb ^= cm
+        if c:
+            basis.append((c.bit_length() - 1, c, comb))
+    x = 0
+    for pb, v, cm in sorted(basis, reverse=True):
+        if rhs >> pb & 1:
+            rhs ^= v
+            x ^= cm
+    if rhs:
+        return None
+    pkt0 = head + x.to_bytes(4, 'big')
+    ck = sctp_checksum_field(pkt0)
+    assert ck == target
+    st = dict(sport=sport, dport=dport, tag=tag, checksum=ck, chunks=[dict(ctype=0, flags=3, tsn=body[0:4], sid=body[4:6], ssn=body[6:8], ppid=body[8:12], data=pkt0[-8:], clen=24, padding=0)])
+    return pkt0[:8] + ck + pkt0[12:], st
